@@ -56,7 +56,10 @@ CLAIM = dict(
          'rescalings, allocator poisoning for np.empty storage, seed forms (int 0 / 1 / large, bool, NumPy integers, 0-d array, '
          'Generator, Generator subclass, one object reused vs two equal-state objects, positional seed + explicit defaults), '
          'argument forms (tuple / int32 / int64 arrays, NumPy scalars, F-ordered / non-contiguous cores, flags as 1 / np.bool_), '
-         'three calls on the same argument objects) -- that part is '
+         'three calls on the same argument objects, and OPTION COVERAGE: every optional parameter of every exported function set to '
+         'a non-default value one at a time (booleans flipped, numeric options changed, optional arrays / callbacks / dictionaries '
+         'supplied) in the history / shared-arguments / poison streams; the pairs not exercised are listed in the evidence '
+         '(coverage.options_not_exercised)) -- that part is '
          'validation, not proof. For np.empty the translator only checks that a store is executed on every path; that the '
          'stores cover every element is validated by the allocator-poisoning stream only. Trusted: NumPy '
          'contract default_rng(int) deterministic / a Generator draws from its own state only; user callbacks do not draw '
@@ -559,13 +562,17 @@ def degenerate_unseeded_recipes(E):
 POISON_VALUES = [2 ** 62 + 12345, -7, 1e300, -3.25]
 
 
-def poison(val):
+def poison(val, light=False):
     """fill the allocator's free lists with blocks that hold `val`: arrays of every size class up to 128 KB are created and
     freed just before the call, so np.empty storage that is read before it is written shows up as a different result"""
     keep = []
     dt = np.int64 if isinstance(val, int) else np.float64
-    for nb in list(range(8, 4097, 8)) + list(range(4096, 1 << 17, 512)):
-        for _ in range(3):
+    if light:      # the small size classes only (NumPy's block cache and malloc's thread cache are 16-byte granular up to 1 KB)
+        sizes = [(nb, 2) for nb in range(16, 2049, 16)] + [(nb, 1) for nb in range(4096, 1 << 16, 4096)]
+    else:
+        sizes = [(nb, 3) for nb in list(range(8, 4097, 8)) + list(range(4096, 1 << 17, 512))]
+    for nb, rep in sizes:
+        for _ in range(rep):
             keep.append(np.full(nb // 8, val, dtype=dt))
     del keep
 
@@ -895,10 +902,12 @@ def poison_probe(E, seeds, fails, stats, only=None):
         if only and key[0] not in only and 'poison' not in only:
             continue
         ref = None
-        for i, val in enumerate(POISON_VALUES[:1] + POISON_VALUES):
-            churn(E, i + j)
+        light = key[1] == 'option coverage'
+        for i, val in enumerate(POISON_VALUES[:1] + (POISON_VALUES[:2] if light else POISON_VALUES)):
+            if not light or i == 1:
+                churn(E, i + j)
             np.random.seed(3)
-            poison(val)
+            poison(val, light)
             r, _ = run_call(th)
             stats['evals'] += 1
             stats['keys'].append(('poison',) + key + (i,))
